@@ -73,6 +73,7 @@ func SignHashEnvelope(rand io.Reader, signer Signer, headers Headers, payload Ha
 
 	headers.Protected = setHashEnvelopeProtectedHeader(headers.Protected, &payload)
 	headers.RawProtected = nil
+	headers.RawUnprotected = nil
 	if err := validateHashEnvelopeHeaders(&headers); err != nil {
 		return nil, err
 	}
